@@ -433,6 +433,24 @@ def run_b3(chk):
         data, kinds = random_services(net, rng, 12, f'm{b}-', nrange=(-1040, 440))
         jobs.append(record_planning(f'multiband:seeded-batch-{b}', net, eq, loadable(data, kinds, eq, chk), chk,
                                     policy='last_fit' if b % 2 == 1 else 'first_fit'))
+    # crafted batch on the multiband network: user-fixed slots in the L band, in the C band, in the un-amplified gap between
+    # the two bands and across each inner band edge (the last three must be refused, whatever the code's map says)
+    net, eq = fresh_net('multiband_example_network.json', 'eqpt_config_multiband.json')
+    from gnpy.core.elements import Transceiver
+    trx = sorted(x.uid for x in net.nodes() if isinstance(x, Transceiver))
+    crafted = []
+    # one pair of sites joined by C+L sections, both directions, three spacings: six requests that cannot be aggregated
+    plan = [(-700, 6), (0, 6), (-390, 6), (-483, 6), (-302, 6), (-390, None)]
+    for k, (n0, m0) in enumerate(plan):
+        s_, d_ = (trx[0], trx[1]) if k % 2 == 0 else (trx[1], trx[0])
+        crafted.append({'request-id': f'x{k}', 'source': s_, 'destination': d_, 'src-tp-id': s_, 'dst-tp-id': d_,
+                        'bidirectional': k in (2, 3),
+                        'path-constraints': {'te-bandwidth': {
+                            'technology': 'flexi-grid', 'trx_type': 'Voyager', 'trx_mode': 'mode 1',
+                            'effective-freq-slot': [{'N': n0, 'M': m0}], 'spacing': [50e9, 62.5e9, 75e9][k // 2],
+                            'max-nb-of-channel': None, 'output-power': 0.001, 'path_bandwidth': 100e9}}})
+    jobs.append(record_planning('multiband:crafted-band-edges', net, eq,
+                                loadable({'path-request': crafted}, ['crafted'] * len(crafted), eq, chk), chk))
     # amplifier band edges off the 6.25 GHz grid (191.2781 - 196.1230 THz): the slots cut by an edge are outside the band
     for b in range(1 if chk.tier == 'quick' else 4):
         from gnpy.tools.json_io import _equipment_from_json, DEFAULT_EXTRA_CONFIG
